@@ -232,8 +232,6 @@ class SymNum(Sym):
             raise Unsupported("symbolic shift")
         return SymNum(self.e * (1 << k))
 
-    ANDW = 33
-
     def __and__(self, m):
         if isinstance(m, int) and m >= 0 and (m & (m + 1)) == 0:
             return SymNum(self.e % (m + 1))
@@ -248,109 +246,9 @@ class SymNum(Sym):
                     acc = acc + ((self.e / (1 << b)) % 2) * (1 << b)
                 b += 1
             return SymNum(acc)
-        if isinstance(m, SymNum) and self.e.sort() == z3.IntSort() and m.e.sort() == z3.IntSort():
-            # symbolic & symbolic: bit-wise sum with If terms over ANDW bits, both operands non-negative and below 2**ANDW (else the path is unsupported)
-            lim = 1 << self.ANDW
-            if not CUR.branch(z3.And(self.e >= 0, m.e >= 0, self.e < lim, m.e < lim)):
-                raise Unsupported("and of negative or wide symbolic integers")
-            acc = z3.IntVal(0)
-            for b in range(self.ANDW):
-                acc = acc + z3.If(z3.And((self.e / (1 << b)) % 2 == 1, (m.e / (1 << b)) % 2 == 1), z3.IntVal(1 << b), z3.IntVal(0))
-            return SymNum(acc)
+        # (symbolic & symbolic was tried through int2bv and as an If-sum over 33 bits: queries of 30+ minutes; it stays unsupported = inconclusive,
+        #  the properties that need it enumerate one operand instead)
         raise Unsupported("and with non-mask")
-    __rand__ = __and__
-
-    def __or__(self, o):
-        return SymBool(z3.Or(self.e, lift(o)))
-    __ror__ = __or__
-
-    def __invert__(self):
-        return SymBool(z3.Not(self.e))
-
-    def __eq__(self, o):
-        return SymBool(self.e == lift(o))
-    __hash__ = Sym.__hash__
-
-
-class SymNum(Sym):
-    def __add__(self, o):
-        a, b = arith(self, o)
-        return SymNum(a + b)
-    __radd__ = __add__
-
-    def __sub__(self, o):
-        a, b = arith(self, o)
-        return SymNum(a - b)
-
-    def __rsub__(self, o):
-        a, b = arith(o, self)
-        return SymNum(a - b)
-
-    def __mul__(self, o):
-        a, b = arith(self, o)
-        return SymNum(a * b)
-    __rmul__ = __mul__
-
-    def _real(self, a):
-        return z3.ToReal(a) if a.sort() == z3.IntSort() else a
-
-    def __truediv__(self, o):
-        if not isinstance(o, Sym) and o == 0:
-            raise ZeroDivisionError("division by zero")
-        a, b = arith(self, o)
-        return SymNum(self._real(a) / self._real(b))
-
-    def __rtruediv__(self, o):
-        a, b = arith(o, self)
-        return SymNum(self._real(a) / self._real(b))
-
-    FLOORDIV_MAX = 8
-
-    def __floordiv__(self, o):
-        if isinstance(o, int) and o > 0 and self.e.sort() == z3.IntSort():
-            return SymNum(self.e / o)
-        if isinstance(o, Sym):
-            # positive reals: fork on the (small) integer quotient, which keeps every path linear; larger quotients end the path (stated bound)
-            a, b = arith(self, o)
-            a, b = self._real(a), self._real(b)
-            for q in range(0, self.FLOORDIV_MAX + 1):
-                if CUR.branch(z3.And(b > 0, a >= 0, q * b <= a, a < (q + 1) * b)):
-                    return q
-            raise Abort()
-        raise Unsupported("floordiv")
-
-    def __mod__(self, o):
-        if isinstance(o, int):
-            if o <= 0:
-                raise Unsupported("mod by non-positive")
-            return SymNum(self.e % o)
-        raise Unsupported("mod by symbolic")
-
-    def __rshift__(self, k):
-        if not isinstance(k, int):
-            raise Unsupported("symbolic shift")
-        return SymNum(self.e / (1 << k))
-
-    def __lshift__(self, k):
-        if not isinstance(k, int):
-            raise Unsupported("symbolic shift")
-        return SymNum(self.e * (1 << k))
-
-    ANDW = 40
-
-    ANDW = 33
-
-    def __and__(self, m):
-        if isinstance(m, int) and m >= 0 and (m & (m + 1)) == 0:
-            return SymNum(self.e % (m + 1))
-        # general case: bit-wise and of two non-negative integers below 2**ANDW through bit-vectors (int2bv / bv2int); anything else ends the path
-        a, b = lift(self), lift(m)
-        if a.sort() != z3.IntSort() or b.sort() != z3.IntSort():
-            raise Unsupported("and of non-integers")
-        lim = 1 << self.ANDW
-        if not CUR.branch(z3.And(a >= 0, b >= 0, a < lim, b < lim)):
-            raise Unsupported("and of negative or > 2**%d operands" % self.ANDW)
-        return SymNum(z3.BV2Int(z3.Int2BV(a, self.ANDW) & z3.Int2BV(b, self.ANDW)))
     __rand__ = __and__
 
     def __neg__(self):
